@@ -3,99 +3,199 @@ open Model
 open Zconv
 open Verdict
 
-let parse_axes s =
-  List.filter_map (fun a -> if a = "" then None else
-    match List.map z_of_string (split_on ',' a) with
-    | [a; b; c] -> Some ((a, b), c) | _ -> failwith "axis") (split_on ' ' s)
+(* an axis of the input: ((min, def), max) and its tag *)
+let parse_axes4 s =
+  List.mapi (fun i a -> match List.map z_of_string (split_on ',' a) with
+    | [a; b; c] -> (((z_of_int (0x77676874 + i), a), b), c)
+    | [a; b; c; t] -> (((t, a), b), c)
+    | _ -> failwith "axis") (List.filter (fun a -> a <> "") (split_on ' ' s))
+let triple (((_, a), b), c) = ((a, b), c)
+let parse_axes s = List.map triple (parse_axes4 s)
+
+let parse_map m =
+  if m = "_" then [] else
+  List.map (fun ft -> match split_on ':' ft with
+    | [f; t] -> (z_of_string f, z_of_string t) | _ -> failwith "map") (split_on ',' m)
 
 let parse_avar s =
   if s = "-" then None else
-  Some (List.filter_map (fun m -> if m = "" then None else if m = "_" then Some [] else
-    Some (List.map (fun ft -> match split_on ':' ft with
-      | [f; t] -> (z_of_string f, z_of_string t) | _ -> failwith "map") (split_on ',' m)))
-    (split_on ' ' s))
+  Some (List.filter_map (fun m -> if m = "" then None else Some (parse_map m)) (split_on ' ' s))
 
-let parts input = match split_on '|' input with
-  | [_; ax; av; cs] -> (parse_axes ax, parse_avar av, (if cs = "-" || cs = "" then [] else List.map z_of_string (split_on ',' cs)))
+let named cs = if String.length cs > 0 && cs.[0] = '@' then Some (z_of_string (String.sub cs 1 (String.length cs - 1))) else None
+let parse_coords cs = if cs = "-" || cs = "" || named cs <> None then [] else List.map z_of_string (split_on ',' cs)
+
+let parse_shape s = match List.map z_of_string (split_on ',' s) with
+  | [a; b; c; d; e; f; g] ->
+    { sh_major = a; sh_off = b; sh_asz = c; sh_dcount = d; sh_icnt = e; sh_isz = f; sh_trail = g }
+  | _ -> failwith "shape"
+
+let canonical = parse_shape "1,16,20,0,0,0,0"
+
+(* the layout is one the format allows: parsing must find exactly the axes that were written *)
+let shape_ok sh =
+  let i = z_to_int in
+  i sh.sh_major = 1 && i sh.sh_off >= 16 && i sh.sh_asz >= 20 && i sh.sh_dcount = 0 && i sh.sh_trail >= 0
+
+type case =
+  | Tuple of string * shape * (((z * z) * z) * z) list * (z * z) list list option * z list   (* N / F / I *)
+  | Named of string * shape * (((z * z) * z) * z) list * (z * z) list list option * z         (* F / I with @k *)
+  | Owned of shape * (((z * z) * z) * z) list * z
+  | Seg of (z * z) list * z
+
+let parse_case input = match split_on '|' input with
+  | ["N"; ax; av; cs] -> Tuple ("N", canonical, parse_axes4 ax, parse_avar av, parse_coords cs)
+  | [("F" | "I") as k; sh; ax; av; cs] when named cs <> None ->
+    (match named cs with Some i -> Named (k, parse_shape sh, parse_axes4 ax, parse_avar av, i) | None -> failwith "named")
+  | [("F" | "I") as k; sh; ax; av; cs] -> Tuple (k, parse_shape sh, parse_axes4 ax, parse_avar av, parse_coords cs)
+  | ["O"; sh; ax; k] -> Owned (parse_shape sh, parse_axes4 ax, z_of_string k)
+  | ["S"; m; x] -> Seg (parse_map m, z_of_string x)
   | _ -> failwith "c13 input"
 
 let run (input : string) : string =
-  let (axes, avar, coords) = parts input in
-  outcome_to_string zlist_to_string (fvar_normalize axes coords avar)
+  match parse_case input with
+  | Tuple ("N", _, axes, avar, coords) ->
+    (* the arithmetic model alone; the byte-level model below must agree with it (C13_fvar_bytes_normalize) *)
+    let direct = outcome_to_string zlist_to_string (fvar_normalize (List.map triple axes) coords avar) in
+    let bytes = outcome_to_string zlist_to_string (case_normalize Release canonical axes coords avar) in
+    if direct = bytes then direct else "model-inconsistent:" ^ direct ^ "/" ^ bytes
+  | Tuple ("I", sh, axes, avar, coords) -> outcome_to_string zlist_to_string (case_instance Release sh axes coords avar)
+  | Tuple (_, sh, axes, avar, coords) -> outcome_to_string zlist_to_string (case_normalize Release sh axes coords avar)
+  | Named (_, sh, axes, avar, k) -> outcome_to_string zlist_to_string (case_named Release sh axes k avar)
+  | Owned (sh, axes, k) -> outcome_to_string z_to_string (case_owned_tuple Release sh axes k)
+  | Seg (m, x) -> "ok:" ^ z_to_string (avar_normalize m x)
 
-(* the property on the implementation's output: never a panic; a wrong-length tuple is rejected;
-   every component within [-16384, 16384]; without avar on a well-formed axis the value is within one
-   2.14 unit of the exact rational normalisation and hits -1/0/+1 exactly at min/default/max.
+(* ---- the property, decided on the implementation's output without the model's result ---- *)
+
+(* plain normalisation of a well-formed axis: within one 2.14 unit of the exact rational, -1/0/+1 exactly at
+   min/default/max (OCaml ints: every product below is < 2^50) *)
+let plain_bad (axes : ((z * z) * z) list) (coords : z list) (iv : z list) : bool =
+  let bad = ref false in
+  List.iteri (fun i ((mn, df), mx) ->
+    let mn = z_to_int mn and df = z_to_int df and mx = z_to_int mx in
+    if mn <= df && df <= mx then begin
+      let c = max mn (min mx (z_to_int (List.nth coords i))) in
+      let r = z_to_int (List.nth iv i) in
+      if c = df then (if r <> 0 then bad := true)
+      else if c < df then begin
+        let span = df - mn in
+        if abs (r * span - 16384 * (c - df)) > span then bad := true;
+        if c = mn && r <> -16384 then bad := true
+      end else begin
+        let span = mx - df in
+        if abs (r * span - 16384 * (c - df)) > span then bad := true;
+        if c = mx && r <> 16384 then bad := true
+      end
+    end) axes;
+  !bad
+
+let map_valid (m : (int * int) list) : bool =
+  let rec sorted = function (f1, _) :: ((f2, _) :: _ as r) -> f1 < f2 && sorted r | _ -> true in
+  sorted m && List.for_all (fun (f, t) -> abs f <= 16384 && abs t <= 16384) m && List.length m >= 2
+
+(* exact piecewise-linear image (in 2.14 units, as a float) of the 16.16 value n under a valid map, with the
+   slope of the segment in use; None when n lies outside the map *)
+let seg_ideal (m : (int * int) list) (n : int) : (float * float) option =
+  let rec seg = function
+    | (f1, t1) :: ((f2, t2) :: _ as r) ->
+      if n >= f1 * 4 && n <= f2 * 4 then Some (f1, t1, f2, t2) else seg r
+    | _ -> None in
+  match seg m with
+  | Some (f1, t1, f2, t2) ->
+    let ideal = float_of_int t1 +. (float_of_int n /. 4.0 -. float_of_int f1) *. float_of_int (t2 - t1) /. float_of_int (f2 - f1) in
+    Some (ideal, abs_float (float_of_int (t2 - t1) /. float_of_int (f2 - f1)))
+  | None -> None
+
+(* through avar: compare with the exact piecewise-linear map of the default-normalised value, for maps that
+   are valid (strictly sorted knots, within [-1,1], containing the value); tolerance = 2 + slope of the
+   segment in use (the property's slope-scaled bound) *)
+let avar_bad (axes : ((z * z) * z) list) (maps : (z * z) list list) (coords : z list) (iv : z list) : bool =
+  let bad = ref false in
+  List.iteri (fun i ((mn, df), mx) ->
+    if i < List.length maps && i < List.length iv then begin
+      let m = List.map (fun (f, t) -> (z_to_int f, z_to_int t)) (List.nth maps i) in
+      if map_valid m then begin
+        let n = z_to_int (default_normalize mn df mx (List.nth coords i)) in   (* 16.16 *)
+        match seg_ideal m n with
+        | Some (ideal, slope) ->
+          let ideal = max (-16384.0) (min 16384.0 ideal) in
+          let got = float_of_int (z_to_int (List.nth iv i)) in
+          if abs_float (got -. ideal) > 2.0 +. slope then bad := true
+        | None -> ()
+      end
+    end) axes;
+  !bad
+
+let ok_list (s : string) : z list = zlist_of_string (String.sub s 3 (String.length s - 3))
+
+(* a user tuple `coords` against a table of SHAPE `sh` whose written records are `axes4` *)
+let judge_tuple sh axes4 avar coords (impl : string) (model : string) : verdict =
+    let axes = List.map triple axes4 in
+    let declared = List.length axes + z_to_int sh.sh_dcount in
+    if List.length coords <> declared then
+      (if starts_with "err:" impl then Mismatch "different error" else Violation ("len", "tuple of the wrong length accepted"))
+    else if starts_with "ok:" impl then begin
+      let iv = ok_list impl in
+      if List.exists (fun v -> let i = z_to_int v in i < -16384 || i > 16384) iv then
+        Violation ("range", "component outside [-1, 1]")
+      else if List.length iv <> declared then Violation ("len", "result tuple has the wrong length")
+      else if not (shape_ok sh) then Mismatch "values differ from the model (malformed table)"
+      else if avar = None && plain_bad axes coords iv then
+        Violation ("accuracy", "component is not within one 2.14 unit of the exact value, or an end point is not exactly -1/0/+1")
+      else if (match avar with Some maps -> avar_bad axes maps coords iv | None -> false) then
+        Violation ("avar-accuracy", "component is not within the slope-scaled bound of the exact avar interpolation")
+      else if starts_with "ok:" model then Mismatch "values differ from the model"
+      else Mismatch "result kinds differ"
+    end
+    else Mismatch "result kinds differ"
+
+
+(* the property on the implementation's output: never a panic; a tuple whose length is not the table's
+   axisCount is rejected, at FvarTable::normalize, variations::instance and FvarTable::owned_tuple alike;
+   every component within [-16384, 16384]; on a table the format allows (any axesArrayOffset >= 16, any
+   axisSize >= 20, instance records, trailing bytes) the axes are the records that were written, so without
+   avar the value of a well-formed axis is within one 2.14 unit of the exact rational normalisation and
+   hits -1/0/+1 exactly at min/default/max, and through a valid avar map within the slope-scaled bound.
    Anything else that differs from the model is a broken correspondence. *)
 let judge (input : string) (impl : string) (model : string) : verdict =
   if starts_with "panic" impl || starts_with "oob" impl then Violation ("panic", "normalize panicked")
   else if impl = model then Agree
-  else begin
-    let (axes, avar, coords) = parts input in
-    if List.length axes <> List.length coords then
-      (if starts_with "err:" impl then Mismatch "different error" else Violation ("len", "tuple of the wrong length accepted"))
-    else if starts_with "ok:" impl && starts_with "ok:" model then begin
-      let iv = zlist_of_string (String.sub impl 3 (String.length impl - 3)) in
-      let mv = zlist_of_string (String.sub model 3 (String.length model - 3)) in
-      if List.length iv <> List.length mv then Violation ("len", "result tuple has the wrong length")
-      else if List.exists (fun v -> let i = z_to_int v in i < -16384 || i > 16384) iv then
-        Violation ("range", "component outside [-1, 1]")
-      else if avar = None && (
-        (* exact-rational accuracy and endpoint exactness, per well-formed axis (OCaml ints: < 2^46) *)
-        let bad = ref false in
-        List.iteri (fun i ((mn, df), mx) ->
-          let mn = z_to_int mn and df = z_to_int df and mx = z_to_int mx in
-          if mn <= df && df <= mx then begin
-            let c = max mn (min mx (z_to_int (List.nth coords i))) in
-            let r = z_to_int (List.nth iv i) in
-            if c = df then (if r <> 0 then bad := true)
-            else if c < df then begin
-              let span = df - mn in
-              if abs (r * span - 16384 * (c - df)) > span then bad := true;
-              if c = mn && r <> -16384 then bad := true
-            end else begin
-              let span = mx - df in
-              if abs (r * span - 16384 * (c - df)) > span then bad := true;
-              if c = mx && r <> 16384 then bad := true
-            end
-          end) axes;
-        !bad)
-      then Violation ("accuracy", "component is not within one 2.14 unit of the exact value, or an end point is not exactly -1/0/+1")
-      else if avar <> None && (
-        (* through avar: compare with the exact piecewise-linear map of the default-normalised value,
-           for maps that are valid (strictly sorted knots, within [-1,1], containing the value);
-           tolerance = 2 + slope of the segment in use (the property's slope-scaled bound) *)
-        let maps = match avar with Some m -> m | None -> [] in
-        let bad = ref false in
-        List.iteri (fun i ((mn, df), mx) ->
-          if i < List.length maps && i < List.length iv then begin
-            let m = List.map (fun (f, t) -> (z_to_int f, z_to_int t)) (List.nth maps i) in
-            let sorted = let rec ok = function (f1, _) :: ((f2, _) :: _ as r) -> f1 < f2 && ok r | _ -> true in ok m in
-            let inrange = List.for_all (fun (f, t) -> abs f <= 16384 && abs t <= 16384) m in
-            if sorted && inrange && List.length m >= 2 then begin
-              let n = z_to_int (default_normalize mn df mx (List.nth coords i)) in   (* 16.16 *)
-              let rec seg = function
-                | (f1, t1) :: ((f2, t2) :: _ as r) ->
-                  if n >= f1 * 4 && n <= f2 * 4 then Some (f1, t1, f2, t2) else seg r
-                | _ -> None in
-              match seg m with
-              | Some (f1, t1, f2, t2) ->
-                let ideal = float_of_int t1 +. (float_of_int n /. 4.0 -. float_of_int f1) *. float_of_int (t2 - t1) /. float_of_int (f2 - f1) in
-                let ideal = max (-16384.0) (min 16384.0 ideal) in
-                let slope = abs_float (float_of_int (t2 - t1) /. float_of_int (f2 - f1)) in
-                let got = float_of_int (z_to_int (List.nth iv i)) in
-                if abs_float (got -. ideal) > 2.0 +. slope then bad := true
-              | None -> ()
-            end
-          end) axes;
-        !bad)
-      then Violation ("avar-accuracy", "component is not within the slope-scaled bound of the exact avar interpolation")
-      else Mismatch "values differ from the model"
+  else match parse_case input with
+  | Seg (m, x) ->
+    if not (starts_with "ok:" impl) then Mismatch "result kinds differ" else begin
+      let m = List.map (fun (f, t) -> (z_to_int f, z_to_int t)) m and x = z_to_int x in
+      let got = z_to_int (z_of_string (String.sub impl 3 (String.length impl - 3))) in
+      if map_valid m && List.exists (fun (f, t) -> f * 4 = x && got <> t * 4) m then
+        Violation ("avar-knot", "a knot of the segment map is not mapped exactly to its target")
+      else match (if map_valid m then seg_ideal m x else None) with
+        | Some (ideal, slope) when abs_float (float_of_int got /. 4.0 -. ideal) > 2.0 +. slope ->
+          Violation ("avar-accuracy", "SegmentMap::normalize is not within the slope-scaled bound of the exact interpolation")
+        | _ -> Mismatch "values differ from the model"
     end
-    else Mismatch "result kinds differ"
-  end
+  | Owned (sh, axes, k) ->
+    let declared = List.length axes + z_to_int sh.sh_dcount in
+    if impl = "ok:1" && z_to_int k <> declared then Violation ("len", "owned_tuple accepted a tuple of the wrong length")
+    else Mismatch "owned_tuple differs from the model"
+  | Tuple (_, sh, axes4, avar, coords) -> judge_tuple sh axes4 avar coords impl model
+  | Named (_, sh, axes4, avar, k) ->
+    (* the coordinates of named instance k are known when the layout is legal and the record holds them all *)
+    let n = List.length axes4 and k = z_to_int k in
+    if shape_ok sh && k >= 0 && k < z_to_int sh.sh_icnt && z_to_int sh.sh_isz >= 4 + 4 * n then
+      judge_tuple sh axes4 avar (inst_coords (z_of_int k) Z0 axes4) impl model
+    else if starts_with "ok:" impl && List.exists (fun v -> let i = z_to_int v in i < -16384 || i > 16384) (ok_list impl) then
+      Violation ("range", "component outside [-1, 1]")
+    else Mismatch "named instance differs from the model"
 
 let tag (input : string) (out : string) : string =
-  let (axes, avar, _) = parts input in
-  (if avar = None then "plain" else "avar") ^ "-" ^ string_of_int (min 3 (List.length axes)) ^ "ax-"
-  ^ (String.sub out 0 (min 2 (String.length out)))
+  let res = String.sub out 0 (min 2 (String.length out)) in
+  match parse_case input with
+  | Seg _ -> "seg-" ^ res
+  | Owned (sh, _, _) -> "owned-" ^ (if shape_ok sh then "legal-" else "malformed-") ^ res
+  | Named (k, sh, _, avar, _) ->
+    (if k = "F" then "fvar-" else "instance-") ^ "named-" ^ (if shape_ok sh then "legal-" else "malformed-")
+    ^ (if avar = None then "plain" else "avar") ^ "-" ^ res
+  | Tuple ("N", _, axes, avar, _) ->
+    (if avar = None then "plain" else "avar") ^ "-" ^ string_of_int (min 3 (List.length axes)) ^ "ax-" ^ res
+  | Tuple (k, sh, _, avar, _) ->
+    (if k = "F" then "fvar-" else "instance-")
+    ^ (if not (shape_ok sh) then "malformed-" else if z_to_int sh.sh_asz > 20 then "stride-" else "packed-")
+    ^ (if avar = None then "plain" else "avar") ^ "-" ^ res
